@@ -8,8 +8,8 @@ CONSTANTS MaxWraps = 4
           MaxExcChain = 2
           MaxBindings = 2
           MaxArgSteps = 4
-          MaxDecoObjs = 4
-          MaxDecoCalls = 3
+          MaxDecoObjs = 3
+          MaxDecoCalls = 2
           TwoDecos = TRUE
 INIT Init
 NEXT NextGen
